@@ -476,7 +476,14 @@ class Harness:
                 elif what == "label":
                     val.append(self.ident(b[fresh_str(self.labels[key])]))
                 elif what == "contains":
-                    val.append(1 if fresh_str(self.labels[key]) in b else 0)
+                    ans = 1 if fresh_str(self.labels[key]) in b else 0
+                    # membership of item OBJECTS is coherent with iteration: what iteration yields is
+                    # contained; an item with other content and a label no item carries is not
+                    own = all((x in b) for x in list(b))
+                    stranger = self.new_item(9) if 9 in self.labels else None
+                    if not own or (stranger is not None and stranger in b):
+                        ans = -7
+                    val.append(ans)
                 elif what == "badkey":
                     self.tagc += 1
                     if self.tagc % 3 == 0:
